@@ -125,18 +125,37 @@ func runNative(tmp, overlayPath, pkg string, vecs []replayVector) (map[int][2]st
 			return nil, out.String(), fmt.Errorf("native replay build failed: %v", err)
 		}
 	}
-	cmd := exec.Command(bin, "-test.run", "^TestZZVerifReplay$", "-test.v", "-test.timeout", "600s")
-	cmd.Dir = repoDir
-	cmd.Env = append(goEnv(), "VERIF_REPLAY_FILE="+vf)
-	cmd.Stdout = &out
-	cmd.Stderr = &out
-	err := cmd.Run()
+	// The replay binary stops after a vector that hangs (its process state is unusable then); it is
+	// started again on the remaining vectors.
 	res := map[int][2]string{}
-	for _, l := range strings.Split(out.String(), "\n") {
-		if m := vreplayRe.FindStringSubmatch(strings.TrimSpace(l)); m != nil {
-			i, _ := strconv.Atoi(m[1])
-			res[i] = [2]string{m[2], m[3]}
+	var err error
+	for start := 0; start < len(vecs); {
+		data, _ := json.Marshal(vecs[start:])
+		if werr := os.WriteFile(vf, data, 0o644); werr != nil {
+			return nil, "", werr
 		}
+		cmd := exec.Command(bin, "-test.run", "^TestZZVerifReplay$", "-test.v", "-test.timeout", "600s")
+		cmd.Dir = repoDir
+		cmd.Env = append(goEnv(), "VERIF_REPLAY_FILE="+vf)
+		var runOut bytes.Buffer
+		cmd.Stdout = &runOut
+		cmd.Stderr = &runOut
+		err = cmd.Run()
+		out.Write(runOut.Bytes())
+		hungAt := -1
+		for _, l := range strings.Split(runOut.String(), "\n") {
+			if m := vreplayRe.FindStringSubmatch(strings.TrimSpace(l)); m != nil {
+				i, _ := strconv.Atoi(m[1])
+				res[start+i] = [2]string{m[2], m[3]}
+				if m[2] == "hang" {
+					hungAt = i
+				}
+			}
+		}
+		if hungAt < 0 {
+			break
+		}
+		start += hungAt + 1
 	}
 	if os.Getenv("VCHECK_DEBUG") != "" {
 		fmt.Fprintln(os.Stderr, out.String())
@@ -188,6 +207,8 @@ func replayViolations(viols []*gosx.Violation, property string) ([]*Confirmed, e
 			switch {
 			case v.Tag == "panic":
 				c.Matches = c.Outcome == "panic"
+			case v.Tag == "hang":
+				c.Matches = c.Outcome == "hang"
 			default:
 				c.Matches = c.Outcome == "assert-failed" && c.NativeTag == v.Tag
 			}
